@@ -396,16 +396,17 @@ def targeted():
                         assert case['gov'] == geff
                         out.append(case)
     # OID-governed with a DEFAULT, caller's map deciding
+    omap2 = [(('oid', (1, 3, 6, 1, 1)), ('bits',)), (('oid', (1, 3, 6, 1, 2)), seqT)]
     for gval in (None, ('oid', (1, 3, 6, 1, 1))):
         for ov in (None, [(('oid', (1, 3, 6, 1, 2)), ('octs',))]):
             case = {'outer': 'seq', 'fields': [('req', ('exp', (128, 0, 0), ('any',))), (('def', ('oid', (1, 3, 6, 1, 2))), ('oid',))],
-                    'vals': [None, gval], 'gi': 1, 'oi': 0, 'map': omap, 'override': ov, 'present': True, 'tagging': 'explicit', 'list': None,
+                    'vals': [None, gval], 'gi': 1, 'oi': 0, 'map': omap2, 'override': ov, 'present': True, 'tagging': 'explicit', 'list': None,
                     'gform': 'default-unset' if gval is None else 'default-differs'}
             if gval is None:
                 case['inner'] = [(('octs',), ('o', b'ov'))] if ov else [(seqT, seqV)]
                 case['kind'] = 'ov_diff' if ov else 'mapped'
             else:
-                case['inner'] = [(('str', 'UTF8String'), ('chars', 'h\xe9'))]
+                case['inner'] = [(('bits',), ('bits', (1, 0, 1)))]
                 case['kind'] = 'mapped'
             case['gov'] = effective_gov(case)
             out.append(case)
